@@ -111,7 +111,10 @@ class Fixture:
         q = urllib.request.pathname2url
         out = [('relative', q(rel)), ('dot', './' + q(rel)), ('subdotdot', 'sub/../' + q(rel)),
                ('chain', '../' + q(self.sandname) + '/' + q(rel)),
-               ('absolute', t), ('file3', 'file://' + q(t)), ('file_localhost', 'file://localhost' + q(t)),
+               ('absolute', t), ('file3', 'file://' + q(t)),
+               # absolute file URLs (and paths) that start with the sandbox directory and leave it through dot segments
+               ('file3_via_sand', 'file://' + q(self.sand) + '/' + q(rel)), ('file3_via_sub', 'file://' + q(self.sand) + '/sub/../' + q(rel)),
+               ('absolute_via_sand', self.sand + '/sub/../' + rel), ('file_localhost', 'file://localhost' + q(t)),
                ('FILE_upper', 'FILE://' + q(t)), ('slashes3', '//' + t), ('slashes4', '///' + t), ('file_slashes5', 'file://///' + q(t).lstrip('/')),
                ('pct_dots', q(rel).replace('..', '%2E%2E') if '..' in rel else './%2E/' + q(rel)),
                # dot segments escaped one and two levels deeper than a single decoding undoes (a location is decoded, collapsed,
